@@ -29,16 +29,30 @@ def run_one(s):
             # length <= fourier_layers is read as per-layer 1-D modes), otherwise the list-of-lists form is used
             layers, fm = 2, modes
             if d > 1:
-                layers, fm = (3, modes) if s["tid"] % 2 == 0 else (2, [modes, modes])
+                layers, fm = (3, modes) if (s["tid"] // 2) % 2 == 0 else (2, [modes, modes])
             net = tp.models.FNO(X, Y, fourier_layers=layers, hidden_channels=3, fourier_modes=fm,
                                 skip_connections=s["skip"], linear_connections=s["lin"])
             call = lambda u: net(tp.spaces.Points(u, X)).as_tensor
+            if ch >= 2 and (s["tid"] // 4) % 2 == 1:        # (generated scenarios alternate layer / fno: tid parity is the kind)
+                # an input space of SEVERAL variables, and the caller's Points hold them in the other order: the model
+                # sorts the columns by name; the caller's tensor is left alone and the result is the one of the sorted call
+                A, C = tp.spaces.Rn("a", 1), tp.spaces.Rn("c", ch - 1)
+                net = tp.models.FNO(A * C, Y, fourier_layers=layers, hidden_channels=3, fourier_modes=fm,
+                                    skip_connections=s["skip"], linear_connections=s["lin"])
+
+                def call(u):
+                    mine = torch.cat([u[..., 1:], u[..., :1]], dim=-1).clone()
+                    keep = mine.clone()
+                    y = net(tp.spaces.Points(mine, C * A)).as_tensor
+                    tr["input_unchanged"] = tr["input_unchanged"] and bool(torch.equal(keep, mine))
+                    tr.setdefault("order", []).append({"y": fld(y), "ys": fld(net(tp.spaces.Points(u, A * C)).as_tensor)})
+                    return y
         net.eval()
         u0 = (torch.randint(-8, 9, (2, *N, ch)).to(torch.float32)) / 4.0
         with torch.no_grad():
             before = u0.clone()
             y0 = call(u0)
-            tr["input_unchanged"] = bool(torch.equal(before, u0))
+            tr["input_unchanged"] = tr["input_unchanged"] and bool(torch.equal(before, u0))
             tr["u0"] = fld(u0)
             held = []
             for sh in s["shifts"]:
